@@ -91,6 +91,10 @@ def run(db, rep, tier):
                                   "stored: it must do so before the move)", 5)
     from rules import _moves
     _moves.use_after_move(db, rep, "R7-use-after-move")
+    rep.rule("R8-cursor", "(shared with C01.R5) the output cursor's bound checks describe the buffer: position and remaining size move together "
+                          "and every write at the cursor is guarded for its length", 60)
+    from rules import _cursor
+    _cursor.check(db, rep, "R8-cursor", 60)
     rep.explanation = ("E-STREAMFX summarises each serialiser and each size function as a symbolic form (constants, opaque size atoms, "
                        "guarded parts, sums over containers) and compares them on the finite partition of the conditions they test: "
                        "written <= counted for header and trailer of all concrete classes (R1); cached sizes follow their lists (R2); "
